@@ -318,14 +318,12 @@ theorem insertInto_success_congr (S : Schema) (ins ins' : List Node) (hk : S.ske
 theorem insertAt_success_congr (S : Schema) (sl I : Slice) (pos : Nat) (ins ins' : List Node)
     (hk : S.skeys ins = S.skeys ins')
     (h : sl.insertAt S pos ins = .ok (some I)) : ∃ I', sl.insertAt S pos ins' = .ok (some I') := by
-  unfold Slice.insertAt at h ⊢
-  split at h
-  · rename_i c hc
-    obtain ⟨c', hc'⟩ := insertInto_success_congr S ins ins' hk _ _ _ _ _ _ _ _ c hc
-    rw [hc']
-    exact ⟨_, rfl⟩
-  · simp at h
-  · simp at h
+  obtain ⟨hle, c, hc, _⟩ := insertAt_ok h
+  obtain ⟨c', hc'⟩ := insertInto_success_congr S ins ins' hk _ _ _ _ _ _ _ _ c hc
+  rw [insertAt_of_le hle]
+  unfold Slice.insertAtIn
+  rw [hc']
+  exact ⟨_, rfl⟩
 
 /-- the top-level types and marks of a list do not depend on what a nested level holds -/
 theorem Lvl.ctx_labels {ty tyP : TypeId} {K L : List Node} {b nd : Nat} {ctx : List Node → List Node}
